@@ -1041,3 +1041,67 @@ Proof.
       * intros i Hi. apply in_map_iff in Hi. destruct Hi as [k0 [<- Hk0]]. apply in_seq in Hk0. lia.
 Qed.
 Print Assumptions gen_q_append_nonempty.
+
+(* ... and of remove: the shortened leg is dropped when nothing is left of it, so no empty leg appears either *)
+Lemma remove_loop_inserts : forall idx L v li vi leg L', py_Q_remove_loop1 idx L v li vi leg = FRet L' -> exists p, L' = insert_atL p leg L.
+Proof.
+  induction idx as [|i idx IH]; intros L v li vi leg L' H; [discriminate H|]. cbn [py_Q_remove_loop1] in H.
+  destruct (idx_ok L i); [|discriminate H].
+  destruct (Z.of_nat (length (list_get [] L i)) <=? Z.of_nat (length leg)); [injection H as <-; eexists; reflexivity|exact (IH _ _ _ _ _ _ H)].
+Qed.
+Theorem gen_q_remove_nonempty legs v legs' : Forall (fun leg : list pstr => leg <> []) legs -> py_Q_remove legs v = FRet legs' ->
+  Forall (fun leg : list pstr => leg <> []) legs'.
+Proof.
+  intros HN H. unfold py_Q_remove in H. cbv beta iota zeta in H.
+  destruct (py_Q_find legs v) as [[li vi]| | | |] eqn:EF; try discriminate H.
+  destruct (li =? -1); [discriminate H|]. destruct (li =? 0); [discriminate H|].
+  destruct (idx_ok legs li); [|discriminate H].
+  destruct (vi <=? Z.of_nat (length (list_get [] legs li))); [|discriminate H].
+  set (leg := firstn (Z.to_nat vi) (list_get [] legs li)) in *. set (T1 := delete_atL (Z.to_nat (norm_idx (length legs) li)) legs) in *.
+  assert (HT1 : Forall (fun leg : list pstr => leg <> []) T1) by (apply Forall_delete_atL; exact HN).
+  destruct (Z.of_nat (length leg) =? 0) eqn:E0; [injection H as <-; exact HT1|].
+  assert (Hx : leg <> []) by (destruct leg; [discriminate E0|discriminate]).
+  destruct (Z.of_nat (length leg) =? 1); [injection H as <-; apply Forall_insert_atL; assumption|].
+  destruct (idx_ok T1 (Z.of_nat (length T1) - 1)); [|discriminate H].
+  destruct (Z.of_nat (length leg) >=? Z.of_nat (length (list_get [] T1 (Z.of_nat (length T1) - 1)))).
+  - injection H as <-. apply Forall_app. split; [exact HT1|constructor; [exact Hx|constructor]].
+  - apply remove_loop_inserts in H. destruct H as [p ->]. apply Forall_insert_atL; assumption.
+Qed.
+(* the invariant in one statement, over every history of appends and removals that return *)
+Definition GoodLegs (L : list (list pstr)) : Prop := L <> [] /\ Forall (fun leg : list pstr => leg <> []) L /\ SortedLegs L.
+Inductive edit := EAppend (v lit : pstr) | ERemove (v : pstr).
+Definition run_edit (L : list (list pstr)) (e : edit) : fres (list (list pstr)) :=
+  match e with EAppend v lit => py_Q_append L false v lit | ERemove v => py_Q_remove L v end.
+Lemma nonempty_Forall_ne (L : list (list pstr)) : L <> [] -> Forall (fun leg : list pstr => leg <> []) L -> concat L <> [].
+Proof. intros HL HF. destruct L as [|a L]; [congruence|]. inversion HF; subst. destruct a; [congruence|discriminate]. Qed.
+Theorem gen_q_edit_invariant L e L' : GoodLegs L -> run_edit L e = FRet L' -> GoodLegs L' /\ hd [] L' = hd [] L.
+Proof.
+  intros [Hne [HN HS]] H.
+  assert (Hhd : hd [] L' = hd [] L).
+  { destruct e as [v lit|v]; cbn [run_edit] in H; [exact (proj2 (gen_q_append_accounts L v lit L' Hne H))|].
+    destruct (gen_q_remove_accounts L v L' Hne H) as [t [_ Hh]]. exact Hh. }
+  split; [|exact Hhd]. split.
+  - intros ->. cbn [hd] in Hhd. destruct L as [|a L]; [congruence|]. inversion HN; subst. cbn [hd] in Hhd. congruence.
+  - destruct e as [v lit|v]; cbn [run_edit] in H.
+    + split; [exact (gen_q_append_nonempty L v lit L' HN H)|exact (gen_q_append_sorted L v lit L' Hne HN HS H)].
+    + split; [exact (gen_q_remove_nonempty L v L' HN H)|exact (gen_q_remove_sorted L v L' Hne HN HS H)].
+Qed.
+Fixpoint run_edits (L : list (list pstr)) (es : list edit) : fres (list (list pstr)) :=
+  match es with [] => FRet L | e :: r => match run_edit L e with FRet L1 => run_edits L1 r | x => x end end.
+Theorem gen_q_history_invariant es : forall L L', GoodLegs L -> run_edits L es = FRet L' -> GoodLegs L' /\ hd [] L' = hd [] L.
+Proof.
+  induction es as [|e r IH]; intros L L' HG H; cbn [run_edits] in H; [injection H as <-; split; [exact HG|reflexivity]|].
+  destruct (run_edit L e) as [L1| | | |] eqn:E1; try discriminate H. destruct (gen_q_edit_invariant L e L1 HG E1) as [HG1 Hh1].
+  destruct (IH L1 L' HG1 H) as [HG' Hh']. split; [exact HG'|congruence].
+Qed.
+(* so along every history of edits the dependency test looks at all single legs of the graph *)
+Theorem gen_q_history_sees_all_ones es c rest c' rest' : GoodLegs (c :: rest) -> run_edits (c :: rest) es = FRet (c' :: rest') ->
+  c' = c /\ take_ones rest' = filter (fun x => (length x =? 1)%nat) rest'.
+Proof.
+  intros HG H. destruct (gen_q_history_invariant es _ _ HG H) as [[_ [HN HS]] Hh]. split; [exact Hh|]. inversion HN; subst. apply (gen_q_one_legs_all c'); assumption.
+Qed.
+Example good_legs_star5 : GoodLegs star5. Proof. split; [discriminate|]. split; [repeat constructor; discriminate|]. unfold SortedLegs, star5. cbn. repeat constructor. Qed.
+Print Assumptions gen_q_remove_nonempty.
+Print Assumptions gen_q_edit_invariant.
+Print Assumptions gen_q_history_invariant.
+Print Assumptions gen_q_history_sees_all_ones.
